@@ -271,6 +271,25 @@ type fileInfo struct {
 	size int64
 	mode os.FileMode
 	dir  bool
+	ino  int    // identity of a regular file (0: none)
+	path string // identity of a directory or link
+}
+
+// SameFile replaces os.SameFile: two descriptions of one simulated inode (or of
+// one directory); outside the simulation the real function decides.
+func SameFile(a, b os.FileInfo) bool {
+	x, ok1 := a.(fileInfo)
+	y, ok2 := b.(fileInfo)
+	if !ok1 || !ok2 {
+		if ok1 || ok2 {
+			return false
+		}
+		return os.SameFile(a, b)
+	}
+	if x.ino != 0 || y.ino != 0 {
+		return x.ino == y.ino
+	}
+	return x.path != "" && x.path == y.path
 }
 
 func (i fileInfo) Name() string { return i.name }
@@ -416,7 +435,7 @@ func (fl *File) Stat() (os.FileInfo, error) {
 	}
 	fl.fs.mu.Lock()
 	defer fl.fs.mu.Unlock()
-	return fileInfo{name: path.Base(fl.name), size: int64(len(fl.ino.data)), mode: fl.ino.mode}, nil
+	return fileInfo{name: path.Base(fl.name), size: int64(len(fl.ino.data)), mode: fl.ino.mode, ino: fl.ino.id}, nil
 }
 
 func (fl *File) Chmod(m os.FileMode) error {
@@ -664,9 +683,9 @@ func Stat(name string) (os.FileInfo, error) {
 		return nil, pathErr("stat", name, syscall.ENOENT)
 	}
 	if isDir {
-		return fileInfo{name: path.Base(p), mode: f.dirs[p], dir: true}, nil
+		return fileInfo{name: path.Base(p), mode: f.dirs[p], dir: true, path: p}, nil
 	}
-	return fileInfo{name: path.Base(p), size: int64(len(in.data)), mode: in.mode}, nil
+	return fileInfo{name: path.Base(p), size: int64(len(in.data)), mode: in.mode, ino: in.id}, nil
 }
 
 func Lstat(name string) (os.FileInfo, error) {
@@ -678,7 +697,7 @@ func Lstat(name string) (os.FileInfo, error) {
 	_, isLink := f.links[clean(name)]
 	f.mu.Unlock()
 	if isLink {
-		return fileInfo{name: path.Base(name), mode: os.ModeSymlink | 0o777}, nil
+		return fileInfo{name: path.Base(name), mode: os.ModeSymlink | 0o777, path: name}, nil
 	}
 	return Stat(name)
 }
